@@ -183,6 +183,33 @@ def generic_prog_check(chk, prop, flavours, nprog, nops, chain, rule, resources,
     return bins
 
 
+def prog_slice(chk, tag, binp, nprog, nops, seed_off=11):
+    """a slice of the prog driver for properties whose main driver is another one: histories in which receivers vanish by every
+    route the API offers (dropped, moved into a message whose queue dies, carried by a message that is never / cannot be decoded);
+    every result against the reference count and the Unix / Ideal models.  Returns (fails, bad)."""
+    rng = random.Random(chk.seed + seed_off)
+    progs, exps = make_programs(rng, nprog, nops)
+    out = sorted([r for i in range(4) for r in (P.run_programs(binp, progs[i::4]) if progs[i::4] else [])], key=lambda r: r["prog"])
+    fails = []
+    for it in out:
+        why = oracle_outcomes(it, exps[it["prog"]])
+        if why:
+            fails.append(it)
+            report(chk, "default", it, why, tag)
+            break
+    ncmp, bad, bad_render, errors = correspond(out, tag.lower() + "prog", with_trace=True)
+    chk.coverage["prog_histories"] = len(out)
+    chk.coverage["traces_validated_against_impl"] = chk.coverage.get("traces_validated_against_impl", 0) + ncmp
+    chk.coverage["correspondence_mismatches"] = chk.coverage.get("correspondence_mismatches", 0) + len(bad)
+    if errors:
+        chk.unproved("model evaluation (coqc on generated cases) failed", errors[0][-1500:])
+    if (bad or bad_render) and not fails:
+        it, verdict = bad[0] if bad else (bad_render[0], "outcome without model counterpart")
+        chk.unproved("correspondence ProgCheck.check_prog = %s on %d of %d histories" % (verdict, len(bad) + len(bad_render), ncmp),
+                     {"program": [P.op_line(o) for o in it["ops"]], "observed_outcomes": it["outs"]})
+    return fails, bad
+
+
 def check_C03(chk):
     thorough = chk.tier == "thorough"
     generic_prog_check(chk, "C03", ["default", "inprocess"], 1500 if thorough else 120, 200 if thorough else 60, False,
@@ -327,7 +354,7 @@ def check_C11(chk):
     tmp = os.path.join(C.BUILD, "tmp", "res-%d" % os.getpid())
     os.makedirs(tmp, exist_ok=True)
     names = ["connect_missing", "server_unused", "server_cycle", "connect_after_accept", "shm_cycle", "set_cycle", "send_closed_att",
-             "undecoded_drop", "server_bad_tmpdir", "router_cycle"]
+             "undecoded_drop", "server_bad_tmpdir", "router_cycle", "ser_fail_att"]
     for fl in ("default", "memfd"):
         recs, trace, rc, err = C.run_harness(bins[fl], "res", ["scen name=%s n=%d" % (s, n) for s in names] + ["inherit"],
                                              env_extra={"TMPDIR": tmp}, timeout=900)
@@ -337,6 +364,11 @@ def check_C11(chk):
             if r is None:
                 chk.failing_input("resource scenario %s did not complete (rc=%s): %s" % (s, rc, err[-300:]), {"scenario": s, "build": fl}, key="res:%s:%s" % (fl, s))
                 continue
+            if r.get("fds_cold", r["fds_before"]) != r["fds_before"] or r.get("maps_cold", r["maps_before"]) != r["maps_before"]:
+                # a bounded leak: what ONE run of the scenario leaves behind (later runs replace it, so repetitions do not grow)
+                chk.failing_input("one run of scenario %s leaves descriptors / mappings behind that stay for the life of the thread: fds %d -> %d, mappings %d -> %d (%s)"
+                                  % (s, r["fds_cold"], r["fds_before"], r["maps_cold"], r["maps_before"], r.get("warmup_fds", [])[:4]),
+                                  {"scenario": s, "build": fl, "record": r}, key="res:%s:%s:once" % (fl, s))
             if r["fds_after"] != r["fds_before"]:
                 chk.failing_input("scenario %s x%d leaks descriptors: %d -> %d (%s)" % (s, n, r["fds_before"], r["fds_after"], r["new_fds"][:4]),
                                   {"scenario": s, "build": fl, "record": r}, key="res:%s:%s:fds" % (fl, s))
